@@ -20,6 +20,8 @@ def run_family(rep, pvh, cfg, extra=None):
     rep.cov["traces_validated_against_impl"] += r["checked"]
     rep.extra.setdefault("exact_output_differences_not_reported_here", 0)
     rep.extra["exact_output_differences_not_reported_here"] += r["extra"]["exact_output_differences_not_reported_here"]
+    rep.extra.setdefault("exact_output_differences_outside_character_loops", 0)
+    rep.extra["exact_output_differences_outside_character_loops"] += r["extra"]["exact_output_differences_outside_character_loops"]
     for s in r["samples"][:2]:
         rep.sample(s)
 
